@@ -51,6 +51,9 @@ def sh(cmd, cwd=None, env=None, timeout=None):
         return 124, out + "\n[timeout]"
 
 
+_RUNLOCK = None
+
+
 class Lock:
     def __init__(self, name):
         os.makedirs(WORK, exist_ok=True)
@@ -369,16 +372,17 @@ def main(argv):
         proof_broken.append("forbidden:" + ";".join(forb[:5]))
 
     # 2. harness build (from /repo's working tree, tag verif)
-    outdir = os.path.join(WORK, prop, "replay" if a.replay else a.tier)
-    shutil.rmtree(outdir, ignore_errors=True)
-    os.makedirs(outdir, exist_ok=True)
     os.makedirs(os.path.join(WORK, "bin"), exist_ok=True)
     mf, suffix = modfile_args()
+    outdir = os.path.join(WORK, prop, ("replay" if a.replay else a.tier) + suffix)
+    # two concurrent runs of the same check would share this directory: the
+    # second waits (the lock is released when the process exits)
+    global _RUNLOCK
+    _RUNLOCK = Lock("run-" + prop + "-" + os.path.basename(outdir))
+    _RUNLOCK.__enter__()
+    shutil.rmtree(outdir, ignore_errors=True)
+    os.makedirs(outdir, exist_ok=True)
     binp = os.path.join(WORK, "bin", cfg["harness"] + suffix)
-    if suffix:
-        outdir = outdir + suffix
-        shutil.rmtree(outdir, ignore_errors=True)
-        os.makedirs(outdir, exist_ok=True)
     with Lock("gobuild-" + cfg["harness"] + suffix):
         rc, out = sh(["go", "build"] + mf + ["-tags", "verif", "-o", binp, "./cmd/" + cfg["harness"]],
                      cwd=HARNESS, env=GOENV, timeout=1200)
